@@ -10,7 +10,7 @@ func init() {
 	register(&propDef{
 		id: "C11", title: "A name maps to at most one running actor in a system",
 		technique: "AST-nesting + who-may-call rule for the spawn funnel (every PID construction sits inside the single-flight closure keyed by the same name), dominance of the already-running lookup, test-and-insert under the tree lock, counter balance on the duplicate path",
-		explanation: "Decides: (1) spawn funnel: every call of configPID / newPID that creates a user actor is lexically inside the function literal handed to runSpawnActivation; the remaining callers are the frozen bootstrap list of system actors (each passes asSystem()); (2) the single-flight key is derived from the same name/address variable the PID is created with; (3) inside the closure a lookup of an already running actor of that name dominates the PID construction and returns it; (4) the tree insert is a test-and-insert in one critical section: addNodeLocked tests the ID index before inserting and reports errNodeAlreadyExists; attachAndPublish returns the canonical instance on that error and undoes its counter increment; (5) runSpawnActivation issues one DoChan per loop iteration with the caller's key and returns the shared result to every waiter.",
+		explanation: "Decides: (1) spawn funnel: every call of configPID / newPID that creates a user actor is lexically inside the function literal handed to runSpawnActivation; the remaining callers are the frozen bootstrap list of system actors (each passes asSystem()); (2) the single-flight key is derived from the same name/address variable the PID is created with; (3) inside the closure a lookup of an already running actor of that name dominates the PID construction and returns it; (4) the tree insert is a test-and-insert in one critical section: addNodeLocked tests the ID index before inserting and reports errNodeAlreadyExists; attachAndPublish returns the canonical instance on that error and undoes its counter increment; (5) runSpawnActivation issues one DoChan per loop iteration with the caller's key and returns the shared result to every waiter. Added after seed C11b: at every spawn entry point the single-flight key is the actor's Address rendered with String() (one format, so different entry points spawning one name share a flight).",
 		assumptions: []string{"a spawn racing a stop of the same name (stop removes the node asynchronously through the death watch)", "singleflight.Group semantics"},
 		minObl:     24,
 		run:        runC11,
@@ -81,6 +81,17 @@ func runC11(c *Ctx) {
 					})
 					nameArg := u.Call.Args[1]
 					c.Check(keyObjs[objOf(info, nameArg)], key+"/key=name", "the single-flight key is computed from the same name/address the PID is created with", u.Where(c.P), "key "+types.ExprString(funnelCall.Args[1])+" does not mention "+types.ExprString(nameArg))
+					// every entry point keys the flight by the actor's full address string, so that two different entry points
+					// spawning the same name share one flight (a key in another format serialises only with itself)
+					okAddr := false
+					if kc, ok := ast.Unparen(funnelCall.Args[1]).(*ast.CallExpr); ok {
+						if sel, ok := ast.Unparen(kc.Fun).(*ast.SelectorExpr); ok && sel.Sel.Name == "String" {
+							if nt := namedOf(info.TypeOf(sel.X)); nt != nil && nt.Obj().Name() == "Address" && nt.Obj().Pkg() != nil && relPkg(nt.Obj().Pkg().Path()) == "internal/address" {
+								okAddr = true
+							}
+						}
+					}
+					c.Check(okAddr, key+"/key-is-address-string", "the single-flight key is the actor's Address rendered with String(): the same format at every spawn entry point", u.Where(c.P), "key is "+types.ExprString(funnelCall.Args[1]))
 					// (3) lookup dominates construction inside the literal
 					var lit *ast.FuncLit
 					for _, a := range funnelCall.Args {
